@@ -90,6 +90,8 @@ def render_module(mname, cells, default, placement, st: fgen.Style, rng: random.
     shared_abstract = rng.random() < 0.6
     abs_bodies = []
     intrinsic_specs = [("assignment", "="), ("operator", "=="), ("operator", "/="), ("operator", "<="), ("operator", ">=")] if rng.random() < 0.5 else []
+    need_blkimpl = False
+    generic_names = [f"{mname}_gen{i + 1}" for i, c_ in enumerate(cells) if c_["kind"] == "generic"]
     for cell in cells:
         n += 1
         k = cell["kind"]
@@ -120,10 +122,20 @@ def render_module(mname, cells, default, placement, st: fgen.Style, rng: random.
             contains += [f"{kw('function')} {cf}(i) {kw('result')}(r)", f"{kw('integer')}, {kw('intent')}(in) :: i", f"{kw('type')}({nm}) :: r", f"r%c{n} = i", st.kw("end") + " " + kw("function")]
             names[nm.lower() + "@interface"] = cell
         elif k in ("subroutine", "function"):
+            # sometimes the body holds a BLOCK construct with a derived type of its own, whose PRIVATE / CONTAINS statements are the type's; or a local
+            # type named like a generic interface of the module (it hides that interface, and has nothing to do with its accessibility)
+            extra = []
+            r_ = rng.random()
+            if r_ < 0.25:
+                extra = [kw("block"), f"{kw('type')} :: blk_t{n}", kw(rng.choice(["private", "private", "public"])), f"{kw('integer')} :: bc{n}", kw("contains"),
+                         f"{kw('procedure')}, {kw('nopass')} :: bb{n} => {mname}_blkimpl", f"{kw('end')} {kw('type')} blk_t{n}", f"{kw('end')} {kw('block')}"]
+                need_blkimpl = True
+            elif r_ < 0.45 and generic_names:
+                extra = [f"{kw('type')} :: {st.nm(rng.choice(generic_names))}", f"{kw('integer')} :: lc{n}", f"{kw('end')} {kw('type')}"]
             if k == "subroutine":
-                contains += [f"{kw('subroutine')} {nm}()", st.kw("end") + " " + kw("subroutine")]
+                contains += [f"{kw('subroutine')} {nm}()"] + extra + [st.kw("end") + " " + kw("subroutine")]
             else:
-                contains += [f"{kw('integer')} {kw('function')} {nm}()", f"{nm} = 1", st.kw("end") + " " + kw("function")]
+                contains += [f"{kw('integer')} {kw('function')} {nm}()"] + extra + [f"{nm} = 1", st.kw("end") + " " + kw("function")]
         elif k == "generic":
             s1 = f"{mname}_gs{n}"
             decl_blocks.append([f"{kw('interface')} {nm}", f"{kw('module')} {kw('procedure')} {s1}", f"{kw('end')} {kw('interface')}"])
@@ -212,6 +224,8 @@ def render_module(mname, cells, default, placement, st: fgen.Style, rng: random.
         if cell["stmt"] != "none":
             s = f"{kw(cell['stmt'])}{dc()}{st.nm(ent_name) if not ent_name.startswith(('operator', 'assignment')) else op_stmt_spelling}"
             (before if cell["place"] == "before" else after).append(s)
+    if need_blkimpl:
+        contains += [f"{kw('subroutine')} {mname}_blkimpl()", st.kw("end") + " " + kw("subroutine")]
     if abs_bodies:
         decl_blocks.append([f"{kw('abstract')} {kw('interface')}"] + [l for b in abs_bodies for l in b] + [f"{kw('end')} {kw('interface')}"])
     rng.shuffle(decl_blocks)
